@@ -147,7 +147,7 @@ func TestC14(t *testing.T) {
 	Ev.Rule = "generated (old,new) with equal/differing runs sized around the 8 KiB skip threshold and the 128 KiB window, new shorter/longer than old; generated write slicing (1 B .. 300 KiB), flush points and session crashes (extra writes after the flush left as stale, possibly torn bytes; new writer from the reported offsets); non-trivial = at least one SKIP op emitted or at least one resumed session; distinct by (old,new,write script)"
 	Ev.Component("overlay.NewOverlayWriter (Write/Flush/Finalize/ReadOffset/OverlayOffset), OverlayPatchContext.Patch", "real")
 	Ev.Component("overlay output file (no-truncate memory file), session crash/restart, write slicing", "simulated")
-	Ev.Assume("the old-file reader is file-like (short only at EOF), as *os.File is")
+	Ev.Assume("the output is a file-like WriteSeeker (as *os.File); the old-file reader may return short reads at any time")
 	Prop(t, "C14", func(rt *rapid.T) {
 		old, nw, runs := genOverlayPair(rt)
 		shiftD := 0
